@@ -59,12 +59,14 @@ def X1(annot=False):
                        'relations': [mk.rel(P + 's2', 'also', {'note': 'x'})],
                        'examples': [{'text': 'x example on a-s1', 'meta': None}],
                        'counts': [{'value': 9, 'meta': None}]},
-                      mk.sense(P + 's1', B + 'ss2')]}
+                      # links the base entry to a base synset the entry has no sense in otherwise
+                      mk.sense(P + 's1', B + 'ss3')],
+           'forms': [{'writtenForm': 'alphax', 'id': P + 'f9'}]}
     if annot:
         xe1['lemma'] = {'external': True, 'tags': [{'text': 'xtagtext-lemma', 'category': 'xc'}],
                         'pronunciations': [{'text': 'xprontext-lemma'}]}
         xe1['forms'] = [{'id': B + 'f1', 'external': True,
-                         'tags': [{'text': 'xtagtext-form', 'category': 'xc'}]}]
+                         'tags': [{'text': 'xtagtext-form', 'category': 'xc'}]}] + xe1['forms']
     return mk.lexicon('x', '1', 'en', 'Extension X', extends={'id': 'a', 'version': '1'},
                       entries=[xe1,
                                mk.entry(P + 'e1', 'gamma', 'n',
@@ -74,6 +76,7 @@ def X1(annot=False):
                                 'relations': [mk.rel(P + 'ss1', 'hyponym', {'type': 'tx'})],
                                 'examples': [{'text': 'x example on a-ss1', 'meta': None}]},
                                {'id': B + 'ss2', 'external': True},
+                               {'id': B + 'ss3', 'external': True},
                                mk.synset(P + 'ss1', 'n', 'i4', definitions=['gamma'],
                                          relations=[mk.rel(B + 'ss1', 'hypernym')])])
 
@@ -128,4 +131,5 @@ def resources(annot=False):
     }
 
 
+FORMS = ['alpha', 'alphas', 'alphax', 'beta', 'beta2', 'gamma', 'delta', 'alfa', 'nothing']
 SPEC = {'A1': 'a:1', 'A2': 'a:2', 'X1': 'x:1', 'Y1': 'y:1', 'B1': 'b:1', 'C1': 'c:1'}
